@@ -62,6 +62,7 @@ class FnTaint:
         for i, p in enumerate(fn.params):
             self._param_place[("v", p["d"])] = i
         self.counters = set()
+        self.accumulators = {}          # local -> [(operand tree, block)] of its `+=` / `*=` / `<<=` with a non-constant operand
         self.head_vars = set()     # locals holding DecoderBuffer::data_head()
         self._propagate()
 
@@ -328,6 +329,12 @@ class FnTaint:
                                              {l for l in rl if l[0] != "param"}, at)
                         if n.get("op") in ("+=", "-="):
                             self.counters.add(self.place_of(n.get("l")))
+                        if n.get("op") in ("+=", "*=", "<<=") and not (isinstance(n.get("r"), dict) and "v" in n["r"]):
+                            pl = self.place_of(n.get("l"))
+                            if pl is not None and pl[0] == "v":
+                                lst = self.accumulators.setdefault(pl, [])
+                                if not any(x[0] is n.get("r") for x in lst):
+                                    lst.append((n.get("r"), at))
                     elif k == "un" and n.get("op") in ("++", "--"):
                         self.counters.add(self.place_of(n.get("e")))
                     elif k == "call":
@@ -490,6 +497,19 @@ class FnTaint:
         multiplication, addition or left shift carried out in fewer than 64
         bits on the stream-derived side (`5 * n > remaining`) makes the
         comparison pass for huge n."""
+        # a running total kept in fewer than 64 bits (`total += n; if (total > limit) fail`) wraps just like
+        # `total + n`: a huge n brings it back under the limit
+        sp = side
+        while isinstance(sp, dict) and sp.get("k") in ("icast", "cast", "copy", "paren") and "v" not in sp:
+            sp = sp.get("e")
+        if isinstance(sp, dict) and sp.get("k") == "var" and "d" in sp and (sp.get("iw") or 64) < 64:
+            for rhs, at in self.accumulators.get(("v", sp["d"]), ()):
+                for lab in self.labels(rhs, at):
+                    if not is_src(lab):
+                        continue
+                    info = self.label_info.get(lab) or self.eng.label_info.get(lab) or {}
+                    if (info.get("iw") or 32) >= 32:
+                        return True      # a full-width stream value is added: the total can wrap
         for n in walk(side):
             if n.get("k") == "bin" and n.get("op") in ("*", "+", "<<") and "v" not in n:
                 if self.expr_width(n) < 64:
